@@ -164,6 +164,9 @@ def write_struct(representation_code: RepresentationCode, value: Any) -> bytes:
     if isinstance(value, float):
         # the sign is made a part of the cache key, because 0.0 and -0.0 compare equal, but are encoded differently
         return _write_struct(representation_code, value, copysign(1., value))
+    if representation_code in (RepresentationCode.OBNAME, RepresentationCode.OBJREF):
+        # references to items are not cached: an item can be renamed or assigned to another origin
+        return _struct_dict[representation_code](value)
     return _write_struct(representation_code, value)
 
 
